@@ -295,8 +295,8 @@ def parse_class_body(toks, cls, path):
         head = toks[i:j]
         if toks[j][0] == ";":
             hs = [h[0] for h in head]
-            if hs and hs[0] == "using" and "=" in hs:
-                cls.aliases[hs[1]] = head[hs.index("=") + 1:]
+            if len(hs) > 3 and hs[0] == "using" and hs[2] == "=":     # using X = <type>;  (not  using Base::operator=;)
+                cls.aliases[hs[1]] = head[3:]
             # other declarations (using Base::x, fields, defaulted constructors, constants) carry no statement
             i = j + 1
             continue
